@@ -22,9 +22,13 @@ class FKbd(KeyboardInterrupt):
     pass
 
 
-KINDS = ["exception", "base_exception", "keyboard_interrupt", "cancelled"]
-KIND_CLS = [FExc, FBase, FKbd, asyncio.CancelledError]
-CATCH = (Tag, AssertionError, FExc, FBase, FKbd, asyncio.CancelledError, ValueError, RuntimeError, TypeError)
+class FStop(StopIteration):
+    pass
+
+
+KINDS = ["exception", "base_exception", "keyboard_interrupt", "cancelled", "stop_iteration"]
+KIND_CLS = [FExc, FBase, FKbd, asyncio.CancelledError, FStop]
+CATCH = (Tag, AssertionError, FExc, FBase, FKbd, asyncio.CancelledError, ValueError, RuntimeError, TypeError, StopIteration)
 
 
 class Boolish:
@@ -197,7 +201,9 @@ def _run_async(ctx: contextvars.Context, w: World, arg: Any, susp_k: int, how: i
 
 def run_fault(shape: str, mode: str, k: int, kind: int, boolish: bool, nfault: int, susp_k: int, how: int,
               t_pre0: bool, t_pre1: bool, t_post0: bool, t_inv0: bool) -> Tuple[bool, bool]:
-    k, kind, nfault, susp_k, how = conc(k, 0, 12), conc(kind, 0, 3), conc(nfault, 1, 2), conc(susp_k, -1, 8), conc(how, 0, 1)
+    k, kind, nfault, susp_k, how = conc(k, 0, 12), conc(kind, 0, 4), conc(nfault, 1, 2), conc(susp_k, -1, 8), conc(how, 0, 1)
+    if kind == 4 and _is_async(shape):
+        kind = 0  # a StopIteration cannot leave a coroutine (PEP 479 turns it into RuntimeError)
     boolish = True if boolish else False
     with untraced():
         w = _CACHE.get((shape, mode))
@@ -284,7 +290,7 @@ def harnesses(tier: str) -> List[H]:
         for mode in modes:
             if tier == "quick" and shape == "method" and mode in ("class", "default_reprlib"):
                 continue
-            params = [I("k", 0, 10 if shape == "func" else 7), I("kind", 0, 3), B("boolish")]
+            params = [I("k", 0, 10 if shape == "func" else 7), I("kind", 0, 4), B("boolish")]
             defaults = {"susp_k": -1, "how": 0, "nfault": 1, "t_pre1": True, "t_inv0": True, "t_pre0": True, "t_post0": True}
             if tier == "thorough":
                 params += [I("nfault", 1, 2)]
